@@ -194,6 +194,82 @@ def fold_table(idx, ci, node):
     raise AnalysisError('table `%s` of class %s is neither a dict literal nor a recognised generating form' % (short(node, 80), ci.name))
 
 
+def eval_set_expr(idx, ci, fi, e, env, depth=0):
+    """Value of a small set/sequence/boolean expression over literal tables (class attributes, locals) -- Python sets,
+    tuples, strings and booleans only."""
+    if depth > 8:
+        raise AnalysisError('set expression nests too deeply')
+    ev = lambda x: eval_set_expr(idx, ci, fi, x, env, depth + 1)
+    if isinstance(e, ast.Constant):
+        return e.value
+    if isinstance(e, ast.Name):
+        if e.id in env:
+            return env[e.id]
+        vals = lib.assigned_value(fi.node, e.id)
+        if len(vals) == 1:
+            return ev(vals[0])
+        raise AnalysisError('name %s is not a single-assignment local' % e.id)
+    if isinstance(e, ast.Attribute) and isinstance(e.value, ast.Name) and e.value.id in ('self', 'cls', ci.name):
+        k, v = idx.lookup_attr(ci, e.attr)
+        if v is None:
+            raise AnalysisError('attribute %s is not a class-level table' % e.attr)
+        return tuple(ev(x) for x in fold_sequence(idx, ci, v))
+    if isinstance(e, (ast.Tuple, ast.List)):
+        return tuple(ev(x) for x in e.elts)
+    if isinstance(e, ast.Set):
+        return frozenset(ev(x) for x in e.elts)
+    if isinstance(e, ast.Call) and isinstance(e.func, ast.Name) and e.func.id in ('set', 'frozenset', 'tuple', 'list', 'sorted') and len(e.args) <= 1:
+        v = ev(e.args[0]) if e.args else ()
+        return frozenset(v) if e.func.id in ('set', 'frozenset') else tuple(v)
+    if isinstance(e, ast.Call) and isinstance(e.func, ast.Attribute) and e.func.attr in ('difference', 'union', 'intersection', 'symmetric_difference') \
+            and len(e.args) == 1:
+        a_, b_ = frozenset(ev(e.func.value)), frozenset(ev(e.args[0]))
+        return {'difference': a_ - b_, 'union': a_ | b_, 'intersection': a_ & b_, 'symmetric_difference': a_ ^ b_}[e.func.attr]
+    if isinstance(e, ast.BinOp) and isinstance(e.op, (ast.Sub, ast.BitOr, ast.BitAnd, ast.BitXor, ast.Add)):
+        a_, b_ = ev(e.left), ev(e.right)
+        if isinstance(e.op, ast.Add):
+            return tuple(a_) + tuple(b_)
+        a_, b_ = frozenset(a_), frozenset(b_)
+        return a_ - b_ if isinstance(e.op, ast.Sub) else a_ | b_ if isinstance(e.op, ast.BitOr) else a_ & b_ if isinstance(e.op, ast.BitAnd) else a_ ^ b_
+    if isinstance(e, ast.Compare) and len(e.ops) == 1:
+        a_, b_ = ev(e.left), ev(e.comparators[0])
+        op = e.ops[0]
+        if isinstance(op, ast.In):
+            return a_ in b_
+        if isinstance(op, ast.NotIn):
+            return a_ not in b_
+        if isinstance(op, ast.Eq):
+            return a_ == b_
+        if isinstance(op, ast.NotEq):
+            return a_ != b_
+    if isinstance(e, ast.UnaryOp) and isinstance(e.op, ast.Not):
+        return not ev(e.operand)
+    if isinstance(e, ast.BoolOp):
+        vals = [ev(v) for v in e.values]
+        return all(vals) if isinstance(e.op, ast.And) else any(vals)
+    raise AnalysisError('expression `%s` is outside the table evaluator' % short(e))
+
+
+def kept_modes(idx, ci, fi, expr, all_modes):
+    """The subset of all_modes that `tuple(m for m in self.modes if F(m))` (or a list form) keeps; None if not such a filter."""
+    e = expr
+    if isinstance(e, ast.Call) and isinstance(e.func, ast.Name) and e.func.id in ('tuple', 'list') and len(e.args) == 1:
+        e = e.args[0]
+    if not isinstance(e, (ast.GeneratorExp, ast.ListComp)) or len(e.generators) != 1:
+        return None
+    g = e.generators[0]
+    if not (isinstance(g.target, ast.Name) and is_name(e.elt, g.target.id) and nf.match('self.modes', g.iter) is not None):
+        return None
+    kept = set()
+    for m in all_modes:
+        try:
+            if all(eval_set_expr(idx, ci, fi, c, {g.target.id: m}) for c in g.ifs):
+                kept.add(m)
+        except AnalysisError:
+            return None
+    return kept
+
+
 def ret_paths(fi):
     return nf.decision_paths(fi.node.body)
 
@@ -724,14 +800,47 @@ def d1_equality(ctx, idx):
 
 
 # ----------------------------------------------------------------------------- D1 MatrixEntryComparer
+def split_conditional_leaves(paths, limit=64):
+    """A returned expression that contains a conditional expression stands for two paths."""
+    out = []
+    work = list(paths)
+    while work:
+        if len(out) + len(work) > limit:
+            raise AnalysisError('too many cases after splitting conditional expressions')
+        p = work.pop(0)
+        ife = None
+        if p.leaf.kind == 'ret' and p.leaf.expr is not None:
+            for n in ast.walk(p.leaf.expr):
+                if isinstance(n, ast.IfExp):
+                    ife = n
+                    break
+        if ife is None:
+            out.append(p)
+            continue
+        from ..index import clone
+        for branch, guard in ((ife.body, nf.canon(ife.test)), (ife.orelse, nf.negate(nf.canon(ife.test)))):
+            class _R(ast.NodeTransformer):
+                def visit_IfExp(self, node):
+                    if node is target:
+                        return clone(branch)
+                    self.generic_visit(node)
+                    return node
+            # work on a private copy in which the chosen IfExp is identified by position
+            copy_ = clone(p.leaf.expr)
+            idxs = [i for i, n in enumerate(ast.walk(p.leaf.expr)) if n is ife]
+            target = list(ast.walk(copy_))[idxs[0]]
+            new_expr = _R().visit(copy_) if target is not copy_ else clone(branch)
+            leaf = nf.Leaf('ret', nf.canon(new_expr), p.leaf.stmt, p.leaf.env)
+            work.append(nf.Path(list(p.guards) + [guard], leaf, p.effects))
+    return out
+
+
 def d1_entry(ctx, idx):
     r = ctx.rule('D1.ENTRY', 'MatrixEntryComparer: np.all over samples, fraction = matches/size, full / zero / proportional / flat credit', floor=8)
     with r:
         fi = idx.func(C + 'MatrixEntryComparer.__call__')
         P, S, U = roles(fi, 1)
-        paths = ret_paths(fi)
-        if len(paths) != 4:
-            raise AnalysisError('MatrixEntryComparer.__call__: expected 4 decision paths, found %d' % len(paths))
+        paths = split_conditional_leaves(ret_paths(fi))
         FRAC = 'np.sum(_Q).item() / _Q.size'
         SUMM = 'np.all(np.vectorize(_U.within_tolerance)(_E, _T), axis=0)'
         checked_frac = [False]
@@ -924,30 +1033,34 @@ def d1_linear(ctx, idx):
             where = lib.loc(gv, p.leaf.stmt)
             posg = any(is_name(g, flagp) for g in p.guards)
             negg = any(isinstance(g, ast.UnaryOp) and isinstance(g.op, ast.Not) and is_name(g.operand, flagp) for g in p.guards)
-            filt = ['tuple((_M for _M in self.modes if _M in self.zero_compatible_modes))',
-                    'tuple([_M for _M in self.modes if _M in self.zero_compatible_modes])',
-                    '[_M for _M in self.modes if _M in self.zero_compatible_modes]']
-            res = nf.classify(filt, p.leaf.expr)
             plain = nf.match('self.modes', p.leaf.expr) is not None
+            kept = None if plain else kept_modes(idx, ci, gv, p.leaf.expr, amv)
+            zset = set(zcv)
             if posg:
-                if res == nf.MATCH:
-                    r.ok('LinearComparer.get_valid_modes: comparing zero', 'only zero-compatible modes', where)
-                elif isinstance(res, tuple):
-                    r.violation('LinearComparer.get_valid_modes: comparing zero', '%s: when comparing with zero the modes kept are not the '
-                                'zero-compatible ones' % res[1], where, found=short(p.leaf.expr))
-                elif plain:
-                    r.violation('LinearComparer.get_valid_modes: comparing zero', 'all configured modes are returned although one side is zero: '
-                                'proportional/linear credit is awarded against zero', where)
-                else:
-                    r.undecided('LinearComparer.get_valid_modes: comparing zero', 'return `%s` not recognised' % short(p.leaf.expr), where)
-            elif negg:
+                construct = 'LinearComparer.get_valid_modes: comparing zero'
                 if plain:
-                    r.ok('LinearComparer.get_valid_modes: ordinary case', 'all configured modes', where)
-                elif res == nf.MATCH:
-                    r.violation('LinearComparer.get_valid_modes: ordinary case', 'the zero filter is applied when neither side is zero: configured '
-                                'proportional/linear credit is never awarded', where)
+                    r.violation(construct, 'all configured modes are returned although one side is zero: '
+                                'proportional/linear credit is awarded against zero', where)
+                elif kept is None:
+                    r.undecided(construct, 'return `%s` not recognised as a filter of self.modes' % short(p.leaf.expr), where)
+                elif kept == zset:
+                    r.ok(construct, 'keeps exactly %s of %s' % (sorted(kept), sorted(amv)), where)
+                elif kept == set(amv) - zset:
+                    r.violation(construct, 'the filter is inverted: when comparing with zero the modes kept are %s, i.e. exactly the ones '
+                                'that are meaningless at zero (a proportional/linear fit against zero always succeeds)' % sorted(kept), where,
+                                expected=str(sorted(zset)), found=short(p.leaf.expr))
                 else:
-                    r.undecided('LinearComparer.get_valid_modes: ordinary case', 'return `%s` not recognised' % short(p.leaf.expr), where)
+                    r.violation(construct, 'when comparing with zero the modes kept are %s instead of the zero-compatible ones %s'
+                                % (sorted(kept), sorted(zset)), where, expected=str(sorted(zset)), found=short(p.leaf.expr))
+            elif negg:
+                construct = 'LinearComparer.get_valid_modes: ordinary case'
+                if plain or (kept is not None and kept == set(amv)):
+                    r.ok(construct, 'all configured modes', where)
+                elif kept is not None:
+                    r.violation(construct, 'a filter keeping only %s is applied when neither side is zero: configured credit for %s is '
+                                'never awarded' % (sorted(kept), sorted(set(amv) - kept)), where)
+                else:
+                    r.undecided(construct, 'return `%s` not recognised' % short(p.leaf.expr), where)
             else:
                 r.undecided('LinearComparer.get_valid_modes', 'path without a test of %s' % flagp, where)
         # (d) check_comparing_zero
@@ -1727,35 +1840,70 @@ def d3_shape_validation(ctx, idx):
                 r.violation(construct, verdict[1], lib.loc(ev, any_call[0]), expected='utils.validate_shape(%s, shape of %s)' % (S, E))
             else:
                 r.undecided(construct, verdict[1], lib.loc(ev, any_call[0]))
-        # wiring of Utils.validate_shape
-        gu = idx.func(MGQ + '.get_comparer_utils')
-        inner = idx.funcs.get(gu.qualname + '.<locals>._validate_shape')
-        ucall = [c for c in lib.calls_named(gu.node, 'Utils')]
-        if inner is None or not ucall:
-            cands = [c for c in walk_all(gu.node) if isinstance(c, ast.Call) and nf.callee_name(c) == 'validate_student_input_shape']
-            if not cands:
-                raise AnalysisError('get_comparer_utils: wiring of validate_shape not found')
-            raise AnalysisError('get_comparer_utils: helper layout changed')
-        kw = lib.get_kw(ucall[0], 'validate_shape', 2)
-        wired = isinstance(kw, ast.Name) and kw.id == inner.name
-        vc = [c for c in lib.calls_named(inner.node, 'validate_student_input_shape')]
-        if not vc:
-            raise AnalysisError('_validate_shape no longer calls validate_student_input_shape')
-        a = vc[0].args
-        ip = inner.params
-        good = wired and len(a) >= 2 and len(ip) >= 2 and is_name(a[0], ip[0]) and is_name(a[1], ip[1]) \
-            and any(isinstance(x.value, ast.Call) and x.value is vc[0] for x in lib.returns_of(inner.node))
-        if good:
-            r.ok('MatrixGrader.get_comparer_utils: validate_shape', 'forwards (student, shape) to validate_student_input_shape', lib.loc(gu, vc[0]))
-        elif len(a) >= 2 and len(ip) >= 2 and is_name(a[0], ip[1]) and is_name(a[1], ip[0]):
-            r.violation('MatrixGrader.get_comparer_utils: validate_shape', 'student input and expected shape are exchanged in the call `%s`'
-                        % short(vc[0]), lib.loc(gu, vc[0]))
-        elif not wired:
-            r.violation('MatrixGrader.get_comparer_utils: validate_shape', 'Utils.validate_shape is bound to `%s` instead of the validating helper'
-                        % (short(kw) if kw is not None else 'nothing'), lib.loc(gu, ucall[0]))
-        else:
-            r.violation('MatrixGrader.get_comparer_utils: validate_shape', 'the helper does not return validate_student_input_shape(student, shape, detail)',
-                        lib.loc(gu, vc[0]))
+        # wiring of Utils.validate_shape: wherever MatrixGrader (or a hook it overrides) builds its utils, the field named
+        # validate_shape is a function forwarding (student, shape) to validate_student_input_shape
+        mg = idx.cls(MGQ)
+        vsites = []
+        for f in idx.package_funcs():
+            if f.qualname == MGQ + '.validate_student_input_shape':
+                continue
+            for c in lib.calls_named(f.node, 'validate_student_input_shape'):
+                vsites.append((f, c))
+        construct = 'MatrixGrader utils: validate_shape'
+        if not vsites:
+            absent(r, idx, construct, 'nothing calls validate_student_input_shape any more: utils.validate_shape cannot report shape '
+                   'mismatches', mg.loc)
+        for inner, vcall in vsites:
+            a = vcall.args
+            ip = inner.params
+            if inner.cls is not None and not inner.is_static:
+                ip = ip[1:]
+            if len(a) < 2 or len(ip) < 2:
+                r.undecided(construct, 'call `%s` in %s not recognised' % (short(vcall), inner.qualname), lib.loc(inner, vcall))
+                continue
+            returned = any(x.value is vcall for x in lib.returns_of(inner.node))
+            if is_name(a[0], ip[1]) and is_name(a[1], ip[0]):
+                r.violation(construct, 'student input and expected shape are exchanged in the call `%s`' % short(vcall), lib.loc(inner, vcall))
+                continue
+            if not (is_name(a[0], ip[0]) and is_name(a[1], ip[1])):
+                r.undecided(construct, 'arguments of `%s` are not the helper\'s (student, shape) parameters' % short(vcall), lib.loc(inner, vcall))
+                continue
+            # where is this helper bound to the name validate_shape?
+            outer = inner.outer
+            bound = None
+            if outer is not None:
+                for n in walk_own(outer.node):
+                    if isinstance(n, ast.Call):
+                        for k in n.keywords:
+                            if k.arg == 'validate_shape':
+                                bound = (k.value, n)
+                        if n.args and nf.callee_name(n) == 'Utils':
+                            # positional construction of the namedtuple: the position of the field decides
+                            k_, tdef = idx.lookup_attr(mg, 'Utils')
+                            fields = None
+                            if isinstance(tdef, ast.Call) and nf.callee_name(tdef) == 'namedtuple' and len(tdef.args) >= 2:
+                                fv = nf.const_value(tdef.args[1])
+                                fields = fv.replace(',', ' ').split() if isinstance(fv, str) else list(fv) if isinstance(fv, (list, tuple)) else None
+                            if fields and 'validate_shape' in fields and fields.index('validate_shape') < len(n.args):
+                                bound = (n.args[fields.index('validate_shape')], n)
+                    elif isinstance(n, ast.Assign) and len(n.targets) == 1 and isinstance(n.targets[0], ast.Subscript) \
+                            and nf.const_value(n.targets[0].slice) == 'validate_shape':
+                        bound = (n.value, n)
+                    elif isinstance(n, ast.Dict):
+                        for k, v in zip(n.keys, n.values):
+                            if isinstance(k, ast.Constant) and k.value == 'validate_shape':
+                                bound = (v, n)
+            if bound is None:
+                r.undecided(construct, 'helper %s forwards to validate_student_input_shape, but where it becomes utils.validate_shape was '
+                            'not found' % inner.qualname, lib.loc(inner, vcall))
+            elif is_name(bound[0], inner.name) and returned:
+                r.ok(construct, '%s forwards (student, shape) to validate_student_input_shape and is bound to validate_shape in %s'
+                     % (inner.name, outer.qualname.split('.')[-1]), lib.loc(inner, vcall))
+            elif not is_name(bound[0], inner.name):
+                r.violation(construct, 'the validate_shape field is bound to `%s` instead of the validating helper %s'
+                            % (short(bound[0]), inner.name), lib.loc(outer, bound[1]))
+            else:
+                r.violation(construct, 'the helper does not return validate_student_input_shape(student, shape, detail)', lib.loc(inner, vcall))
 
 
 # ----------------------------------------------------------------------------- D4 numeric type-state
@@ -2052,6 +2200,12 @@ MUTANTS = [
     Mutant('entry-expected-transform-deleted', CMP, "        expected_evals = [transform(x) for x in expected_evals]\n", "", 'D1'),
     Mutant('equality-student-transform-deleted', CMP, "        student_eval = transform(student_eval)\n\n        return utils.within_tolerance", "        return utils.within_tolerance", 'D1'),
     Mutant('equality-reference-is-student', CMP, "        return utils.within_tolerance(expected_eval, student_eval)", "        return utils.within_tolerance(student_eval, expected_eval)", 'D1'),
+    Mutant('utils-positional-fields-misplaced', MG, "        return self.Utils(tolerance=self.config['tolerance'],\n                          within_tolerance=_within_tolerance,\n                          validate_shape=_validate_shape)",
+           "        return self.Utils(self.config['tolerance'], _validate_shape, _within_tolerance)", 'D3'),
+    Mutant('linear-zero-filter-set-difference-inverted', LIN, "        if is_comparing_zero:\n            return tuple(mode for mode in self.modes\n                         if mode in self.zero_compatible_modes)\n        return self.modes",
+           "        if not is_comparing_zero:\n            return self.modes\n        nonzero_only_modes = set(self.all_modes) - set(self.zero_compatible_modes)\n        return tuple(mode for mode in self.modes\n                     if mode in nonzero_only_modes)", 'D1'),
+    Mutant('entry-conditional-credit-branches-exchanged', CMP, "        elif partial_credit == 'proportional':\n            return {'ok': 'partial', 'grade_decimal': percent_correct, 'msg': msg}\n        else:\n            return {'ok': 'partial', 'grade_decimal': partial_credit, 'msg': msg}",
+           "        awarded = partial_credit if partial_credit == 'proportional' else percent_correct\n        return {'ok': 'partial', 'grade_decimal': awarded, 'msg': msg}", 'D1'),
     Mutant('linear-validation-removed', LIN, "            utils.validate_shape(student_evals[0], shape)", "            pass", 'D2'),
     Mutant('nearly-zero-strict', MF, "    return np.linalg.norm(x) <= tolerance", "    return np.linalg.norm(x) < tolerance", 'D1'),
     Mutant('nearly-zero-relative-to-itself', MF, "        tolerance = np.linalg.norm(reference) * percentage_as_number(tolerance)",
@@ -2172,5 +2326,11 @@ BENIGN = [
            "        except ShapeError as err:\n            silent = {'ok': False, 'msg': '', 'grade_decimal': 0}\n            if self.config['suppress_matrix_messages']:\n                return dict(silent)\n            elif self.config['shape_errors']:\n                raise\n            else:\n                return dict(silent, msg=str(err))\n"),
     Benign('equality-transform-inlined', CMP, "        transform = self.config['transform']\n        expected_eval = transform(expected_eval)\n        student_eval = transform(student_eval)\n\n        return utils.within_tolerance(expected_eval, student_eval)",
            "        return utils.within_tolerance(self.config['transform'](expected_eval), self.config['transform'](student_eval))"),
+    Benign('utils-built-positionally', MG, "        return self.Utils(tolerance=self.config['tolerance'],\n                          within_tolerance=_within_tolerance,\n                          validate_shape=_validate_shape)",
+           "        return self.Utils(self.config['tolerance'], _within_tolerance, _validate_shape)"),
+    Benign('entry-partial-credit-by-conditional-expression', CMP, "        elif partial_credit == 'proportional':\n            return {'ok': 'partial', 'grade_decimal': percent_correct, 'msg': msg}\n        else:\n            return {'ok': 'partial', 'grade_decimal': partial_credit, 'msg': msg}",
+           "        awarded = percent_correct if partial_credit == 'proportional' else partial_credit\n        return {'ok': 'partial', 'grade_decimal': awarded, 'msg': msg}"),
+    Benign('linear-zero-filter-by-set-difference', LIN, "        if is_comparing_zero:\n            return tuple(mode for mode in self.modes\n                         if mode in self.zero_compatible_modes)\n        return self.modes",
+           "        if not is_comparing_zero:\n            return self.modes\n        nonzero_only_modes = set(self.all_modes) - set(self.zero_compatible_modes)\n        return tuple(mode for mode in self.modes\n                     if mode not in nonzero_only_modes)"),
     Benign('eigen-log-statement', CMP, "    expected = eigenvalue * student_eval\n    actual = matrix * student_eval\n", "    expected = eigenvalue * student_eval\n    actual = matrix * student_eval\n    _unused = len(comparer_params_eval)\n"),
 ]
